@@ -69,6 +69,10 @@ CLAIMED = {
             "TLC explores every sequence of root-of-trust edits by root principals and outsiders, signatures, apply, discard and direct tampering with the policy / staging refs up to the bound and checks that only Apply moves the policy ref, only to a self-valid staged descendant, never when a ref is out of sync, that outsiders cannot edit the root and that whatever Apply publishes stays loadable; emitted histories are replayed through experimental/gittuf.Repository on real Git repositories and TLC judges what was observed after every step.",
             "Root edits only; real git with ssh-keygen based signers, so the replayed sample is small in the quick tier.",
             "DESIGN.md section 4 C12"),
+    "C08": ("Verify.tla, VerifyCache.tla, MC_VerifyCache.tla, Trace_VerifyCache.tla",
+            "TLC explores every sequence of Grow / Populate / Delete / Verify(full, latest) actions up to the bound and proves that with an ideal cache (complete policy lookup, checkpoints only from full verification) every Verify answers what the cache-less verifier answers; action sequences are replayed on a real repository whose every Verify is also run on a cache-less copy, with all references listed before and after, and TLC judges equality of verdict and tip and attributes differences to the listed cache deviations.",
+            "One reference, key-disjoint principals, chain-valid policies; the attestation index of the cache is modelled but not stressed.",
+            "DESIGN.md section 4 C08"),
 }
 
 NOT_YET = {
